@@ -1,9 +1,12 @@
 #!/bin/bash
-# tools/seed_catalogue.sh <dir-of-seeded-changes> : runs the quick check of each change's property against it and prints "<id> <exit> <first signatures>"
+# tools/seed_catalogue.sh <dir-of-seeded-changes> : runs the quick check of each change's property against it and prints "<id> <prop> <exit> <first signatures>".
+# A change whose meta.json carries "checked_by" is run against that property's check instead (a change written for one property may in fact break another).
 for d in "$1"/C*/; do
   id=$(basename "$d"); prop=${id%%-*}
+  ov=$(python3 -c 'import json,sys; print(json.load(open(sys.argv[1])).get("checked_by",""))' "$d/meta.json" 2>/dev/null)
+  [ -n "$ov" ] && prop=$ov
   out=$(MUT_LINES=3 /verif/tools/mutant.sh "$d/patch.diff" "$prop" quick 2>&1)
   rc=$(echo "$out" | grep -o 'exit=[0-9]*' | tail -1)
   sigs=$(echo "$out" | grep violation | sed 's/^ *[0-9]* violation: //' | head -3 | tr '\n' ';')
-  echo "$id $rc $sigs"
+  echo "$id $prop $rc $sigs"
 done
